@@ -20,7 +20,8 @@ CHECKS = {
             "structural conditions that make a context restore exactly the value in force before entry: capture in "
             "__enter__ before the write (S1), per-entry stack (S2), unconditional write-back (S3), exit cannot be "
             "skipped or swallow exceptions (S4), slot isolation per class and per dtype and writes going through the class's own _set_state hook (S5), "
-            "composite pairing incl. conditional sub-contexts entered and exited under the same condition (S6), no "
+            "composite pairing incl. conditional sub-contexts entered and exited under the same condition (S6; contexts written as "
+            "contextlib.contextmanager generators must restore in the finally of a try that encloses the yield, or through enclosing with statements - S4), no "
             "import-time reads by consumers (S7). These conditions are sufficient for the property under the stated "
             "assumptions (single thread, contexts used through `with`) and each is necessary: breaking one yields a "
             "concrete leaking history. The unit test samples one history; this quantifies over all of them.",
@@ -36,7 +37,9 @@ CHECKS = {
             "every constructor call of a dtype-taking class carries a dtype derived from an operand, never torch's "
             "default; (V) dtype conversions of recorded arguments sit behind a floating-point test so index / mask "
             "tensors are never cast; (N) optional device/dtype are None-tested; (P,P2,G,G2) dtype/device property "
-            "overrides, to()/type() overrides of dtype-keyword classes store the TARGET dtype, requires_grad only on "
+            "overrides, to()/type() overrides of dtype-keyword classes store the TARGET dtype, (P3) a class whose dtype is an attribute "
+            "the constructor sets to a fixed value (permutation operators: integer tensors carry no floating dtype) writes that attribute "
+            "on the result of to() and type(), (V2) no conversion returns self on the strength of the first tensor's dtype, requires_grad only on "
             "floating tensors and over both the positional and the keyword record; (C) the "
             "ownership engine proves that the operator returned by clone() holds no tensor object and no storage of "
             "the original; (R) explicit rebuilds inside to/type/cpu/cuda/double/float/half/clone/detach bind to the "
@@ -58,7 +61,8 @@ CHECKS = {
             "f(other, self, alpha) with the right order, sign, transposes and alpha placement for all operand values; "
             "(T6) with A.solve(X) = A^-1 X as a primitive, every evaluable solve_triangular definition returns A^-1 R "
             "for left=True and R A^-1 for left=False, or raises; (T8) the operator-second handler of a non-commutative function does not hand its operands, unswapped, to "
-            "the operator-first implementation; (T7) a unary elementwise map applied factor by factor "
+            "the operator-first implementation; (T9) a registered handler reads every parameter it accepts outside error messages, or "
+            "refuses unconditionally (an argument torch honours is never silently ignored); (T7) a unary elementwise map applied factor by factor "
             "to a Kronecker-structured operator is a multiplicative function (abs, sqrt, inverse ...), never exp/log. "
             "NOT decided: that each first-operand handler's value equals torch on the dense tensor (numerical).",
             TRUST + "; operators' +, @, mul are true sum/product/elementwise product (C01/C02).",
@@ -146,7 +150,8 @@ CHECKS = {
             "__init__, _memoize_cache entries, class-level globals) and each write must be write-once (dominated by a "
             "'not yet set' test with the right polarity), a keyed memo (read back only under equality of the key stored "
             "with it), a private helper guarded at all its call sites, or aimed at an operator constructed in the same "
-            "function; ignore_args caches only where arguments cannot matter; denotation attributes are never "
+            "function; ignore_args caches only where arguments cannot matter, and one cache name belongs to one method name as seen from "
+            "every class (K: two methods under one name read each other's entries); denotation attributes are never "
             "re-assigned; a 'not yet cached' guard probes the cache with the same key shape as the "
             "write it protects (W, vacuous-guard clause); no method writes in place into a tensor held by self or "
             "obtained from a cached query (M; the C13 ownership proof restricted to operator state); containers "
@@ -167,11 +172,13 @@ CHECKS = {
             "batch_repeat, batch_shape, num_outputs_per_input, open **params) - a dropped flag makes expand / permute / "
             "index / scale / transpose / jitter return an operator that denotes a different matrix; and public arithmetic "
             "methods dereference a python-scalar operand only behind a type test or conversion (S), convert it with "
-            "the operator's dtype (S2), and the private hook _mul_constant is reached only through mul(), which "
+            "the operator's dtype (S2), and the private constant-multiplication hook (derived: the private method mul() calls in its tensor branch; _mul_constant) is reached only through mul(), which "
             "establishes its precondition, or from its own definitions (H: who-may-call); (O) a product that a "
             "left-multiplication method (matmul/_matmul/__matmul__/_t_matmul) builds from self and the operand keeps "
             "self on the left, and the reflected family keeps it on the right - for non-commuting matrices the swap "
-            "is a different operator; (D) no method mutates a list/dict held in a denotation attribute of an "
+            "is a different operator; (Q) a constructor that splits its open **params into dictionaries it keeps gets every part "
+            "back at each rebuild site, through a ** expansion that derives from the kept part (followed through locals and private "
+            "rebuild helpers); (D) no method mutates a list/dict held in a denotation attribute of an "
             "existing operator. Decided for every "
             "class x rewrite cell at once. NOT decided: dense values, broadcasting arithmetic of constants, argument "
             "types at rebuild sites, flags hidden behind an unrelated **dict.",
@@ -240,7 +247,9 @@ CHECKS = {
             "quantity is dominated by the lt(den, eps) -> masked_fill_(mask, 1) idiom (D); by flow-sensitive value "
             "dependence the norm that decides convergence is a function of the residual itself, not of the "
             "preconditioned inner product, the zero-column threshold does not depend on the right-hand side, and the "
-            "tridiagonal recording stops only when the off-diagonal entry of EVERY column vanished (M). The tests use one "
+            "tridiagonal recording stops only when the off-diagonal entry of EVERY column vanished (M); the break / reached flag lie on a branch "
+            "that guarantees residual norm < tolerance, not merely on a branch of that test (X); the tridiagonal matrix that is returned is "
+            "the recorded buffer, only sliced / permuted / copied after the iteration, never re-computed or written (L). The tests use one "
             "well-conditioned system with a preconditioner-free path, so the preconditioned sibling, zero columns and "
             "zero curvature are not exercised. NOT decided (numerical): monotone A-norm error, Chebyshev bound, that "
             "t_mat is the Lanczos matrix, preconditioner independence of the answer.",
